@@ -227,6 +227,18 @@ func c04Specs(quick bool) []*SeqSpec {
 		op(0, U(0, 1, 13)),
 		tick(2 * sec),
 	}})
+	// requests that wait for the key to be TAKEN (wait-when-unlocked flag, as Event.Wait of a default-clear event
+	// sends them): they queue on a free key; one of them timing out or being cancelled must not release the others
+	specs = append(specs, &SeqSpec{Name: "wait-when-unlocked-waiters", Cfg: cfg, Depth: zd, Drain: true, Alphabet: []SeqOp{
+		op(1, withTF(L(0, 1, 15, 2, 0, 1, 0), 0x0200)),
+		op(1, withTF(L(0, 1, 16, 6, 0, 1, 0), 0x0200)),
+		op(0, withTF(L(0, 1, 17, 9, 0, 1, 0), 0x0200)),
+		op(0, hapi.Cmd{Type: 2, Key: 1, Id: 16, Flag: 0x02}),
+		op(0, func() hapi.Cmd { c := L(0, 1, 1, 0, 4, 1, 0); c.Flag = 0x02; return c }()),
+		op(0, L(0, 1, 1, 0, 4, 1, 0)),
+		op(0, U(0, 1, 1)),
+		tick(3 * sec), tick(5 * sec),
+	}})
 	for _, n := range ramps {
 		specs = append(specs, &SeqSpec{Name: fmt.Sprintf("ramp-%d-waiters", n), Cfg: cfg, Ramp: rampWaiters(n, false), Alphabet: rampWaitAlphabet(n), Depth: rd, Drain: true, DrainFor: 70 * sec})
 		specs = append(specs, &SeqSpec{Name: fmt.Sprintf("ramp-%d-waiters-prio", n), Cfg: cfg, Ramp: rampWaiters(n, true), Alphabet: rampWaitAlphabet(n), Depth: rd, Drain: true, DrainFor: 70 * sec})
